@@ -168,3 +168,39 @@ Print Assumptions C07_former_witnesses_pass.
 Theorem C07_sink_agrees : forall c, read_cell_sink c = read_cell c.
 Proof. exact read_cell_sink_agrees. Qed.
 Print Assumptions C07_sink_agrees.
+
+(** The core string fields are values too.  context_id and event_type come back as the stored text from
+    every layout unless to_json re-parses the text (class Utf8ReparsedOnRender: a context id such as
+    "9999999999999999999" or "[1]" is returned as a number / an array, identically in every tier). *)
+Theorem C07_core_roundtrip_outside_known : forall l s, utf8_reparsed s = false -> returned_core l s = JStr s.
+Proof. exact core_roundtrip_outside_known. Qed.
+Print Assumptions C07_core_roundtrip_outside_known.
+
+Theorem C07_core_known_fails : forall l s, utf8_reparsed s = true -> json_eqb (returned_core l s) (JStr s) = false.
+Proof. exact core_known_fails. Qed.
+Print Assumptions C07_core_known_fails.
+
+Theorem C07_core_refuted :
+  returned_core L_mem (dec_of_Z 9999999999999999999) = JU64 9999999999999999999 /\
+  returned_core L_cmp (dec_of_Z 9999999999999999999) = JU64 9999999999999999999 /\
+  returned_core L_seg [91; 49; 93]%N = JArr [JU64 1].
+Proof. exact core_refuted. Qed.
+Print Assumptions C07_core_refuted.
+
+Theorem C07_core_tiers_agree : forall l1 l2 s, returned_core l1 s = returned_core l2 s.
+Proof. exact core_tiers_agree. Qed.
+Print Assumptions C07_core_tiers_agree.
+
+(** Two contexts that differ only in spelling stay two contexts: FOR q returns an event iff it was stored
+    under exactly q, in every layout. *)
+Theorem C07_for_selects_exact : forall l q ctx, for_selects l q ctx = true <-> ctx = q.
+Proof. exact for_selects_exact. Qed.
+Print Assumptions C07_for_selects_exact.
+
+(** The integer-first materialisation (EventSink) differs from the one on the QUERY/REPLAY path exactly on
+    core texts that read as an i64: "00123" -> "123", "+7" -> "7", "-0" -> "0". *)
+Theorem C07_core_sink_characterised : forall s,
+  (parse_i64 s = None -> core_read_sink s = core_read s) /\
+  (forall z, parse_i64 s = Some z -> core_read_sink s = dec_of_Z z).
+Proof. exact core_sink_characterised. Qed.
+Print Assumptions C07_core_sink_characterised.
